@@ -137,7 +137,7 @@ pub fn shape_class(a: &Operand, b: &Rhs) -> &'static str {
 }
 
 pub fn kind_of(t: Tid) -> &'static str {
-    if t < NFIXED {
+    if is_fixed(t) {
         "Bvf"
     } else if t == TID_D {
         "Bvd"
